@@ -10,7 +10,7 @@ import (
 // otherwise dangerous to evaluate.
 var ChaosExprs = []string{
 	"range(1, 5, 0)", "range(5, 1, 0 - 1)", "range(0, 3, 0 - 1)", "range(3, 0)", "range('a')", "range(1.5)", "range()", "range(1, 2, 3, 4)",
-	"length(1)", "length()", "length(null)", "keys('x')", "keys(1)", "augmentMap(1, 2)", "augmentMap([:], 'x')", "round('a')", "round(1.5, 'x')", "round(1.5, 400)",
+	"length(1)", "length()", "length(null)", "keys('x')", "keys(1)", "augmentMap(1, 2)", "augmentMap([:], 'x')", "round('a')", "round(1.5, 'x')", "round(1.5, 400)", "round(1.5, 1099511627776)", "round($f, 9223372036854775807)", "round(2.5, 0 - 9223372036854775807)",
 	"floor(null)", "ceiling('x')", "min('a', 1)", "max([1], 2)", "randomInt(0)", "randomInt('x')", "strContains(1, 2)", "strContains('a')", "nosuchfunc(1)",
 	"isFirst($a)", "isLast(1)", "index()", "index($nope)", "isNonnull()", "hasData(1)", "vfail()", "vfail(1, 2)",
 	"$a.b.c", "$xs['k']", "$m[0]", "$b[1]", "$b.x", "$ij.nope.deep", "$ij", "$xs[0 - 1]", "$xs[99]", "$o.x", "$ms[0].xs[9]", "$ms[5].a", "$m['zz'].q", "$a?.b", "$c[0]",
